@@ -33,6 +33,16 @@ def call_std_path(I, target, full, args, node):
         used(key)
         r = I.deref(args[0])
         return r
+    if key in ("Rc::try_unwrap", "Rc::unwrap_or_clone", "Rc::into_inner"):
+        # the value inside the Rc (whether it is moved out or cloned is not observable in this value model)
+        used(key)
+        r = I.deref(args[0])
+        inner = r.inner if isinstance(r, Rc) else r
+        if key == "Rc::try_unwrap":
+            return ok(inner)
+        if key == "Rc::into_inner":
+            return some(inner)
+        return inner
     if key == "Rc::ptr_eq":
         used(key)
         x, y = I.deref(args[0]), I.deref(args[1])
